@@ -14,10 +14,22 @@ func c19Observers(N int) {
 	} else {
 		g = vgSparse(adj)
 	}
-	f := rt.Choice("fnA", 6)
-	h := rt.Choice("fnB", 6)
+	f := rt.Choice("fnA", 7)
+	h := rt.Choice("fnB", 7)
 	run := func(k int) int {
 		switch k {
+		case 6:
+			// every outcome of the draws is a path, so only the shape of the result is
+			// compared with a solo run; the shared state at stake is the random source
+			c := RandomMaximalClique(g, 1)
+			for i := range c {
+				for j := i + 1; j < len(c); j++ {
+					if c[i] == c[j] || !g.IsEdge(c[i], c[j]) {
+						return -1
+					}
+				}
+			}
+			return 0
 		case 0:
 			return CliqueNumber(g)
 		case 1:
@@ -57,7 +69,14 @@ func c19Observers(N int) {
 	}
 	rt.ActorEnd()
 	rt.FootprintCheck()
-	soloA, soloB := run(f), run(h) // after the actors: a lazily filled cache must still be cold when they run
+	// after the actors: a lazily filled cache must still be cold when they run
+	soloA, soloB := 0, 0
+	if f != 6 {
+		soloA = run(f)
+	}
+	if h != 6 {
+		soloB = run(h)
+	}
 	rt.Check(a == soloA && b == soloB, "result differs from the result obtained running alone")
 	vgAgree(g, adj, "an observer modified the shared graph")
 	rt.Reach("end")
